@@ -13,7 +13,9 @@ macro_rules! impl_for_ca {
                 fn titer(&self) -> impl TIterator<Item=Option<$real>>
                 // where Option<$real>: 'a
                 {
-                    self.into_iter()
+                    // polars' own iterator keeps announcing the full length after it has been
+                    // partially consumed; TrustIter reports what is still to come
+                    self.into_iter().to_trust(self.len())
                 }
             }
         )*
@@ -161,7 +163,7 @@ impl_for_ca!(
 impl<'a> TIter<Option<&'a str>> for &'a ChunkedArray<StringType> {
     #[inline]
     fn titer(&self) -> impl TIterator<Item = Option<&'a str>> {
-        self.into_iter()
+        self.into_iter().to_trust(self.len())
     }
 }
 
